@@ -114,6 +114,11 @@ def check(ctx, rep):
             apub = [t for t in walk(r) if util.is_call(t, "srp_internal_client::calculate_client_public_key")]
             cs = [t for t in walk(r) if util.is_call(t, "srp_internal_client::calculate_client_S")]
             good = len(draws) == 1 and apub and cs and all(strip(t[2][0]) in draws for t in apub) and all(strip(t[2][2]) in draws for t in cs)
+            if not good and apub and cs and not draws:
+                # the key made by a looked-through constructor (`PrivateKey::from_rng(rng)`): one and
+                # the same value - a fresh, whole, unmodified CSPRNG output - feeds A and S
+                vals = {canon(ctx, se, t[2][0]) for t in apub} | {canon(ctx, se, t[2][2]) for t in cs}
+                good = len(vals) == 1 and util.fresh(ctx, next(iter(vals)))[0]
             if not good and not (apub and cs) and "srp-default-math" in ctx.features:
                 # the client-only internals were folded into something else: C03's end-to-end
                 # view of the constructor - the exponent of A and the `a` in S are one draw
@@ -162,7 +167,23 @@ def matrix_digits(ctx, rep):
     fields = ctx.fb.adt_fields("matrix_card::MatrixCard")
     di = [k for k, f in enumerate(fields) if "Vec<u8>" in ctx.fb.ty(f["ty"]).s]
     data = strip(aggs[0][4][di[0]]) if len(aggs) == 1 and len(di) == 1 else None
-    size_ok = lambda t: util.is_call(strip(t), "matrix_card::MatrixCard::get_matrix_card_size") and tuple(strip(x) for x in strip(t)[2]) == (("param", 1), ("param", 2), ("param", 3))
+    def size_ok(t):
+        t = strip(t)
+        if util.is_call(t, "matrix_card::MatrixCard::get_matrix_card_size") and tuple(strip(x) for x in t[2]) == (("param", 1), ("param", 2), ("param", 3)):
+            return True
+        # the same product spelled out (a looked-through geometry helper): digit_count * height * width
+        from rules import arith
+        n = arith.norm(t, {("param", 1): "a", ("param", 2): "b", ("param", 3): "c"})
+
+        def factors(x):
+            if isinstance(x, tuple) and x and x[0] == "mul":
+                out = []
+                for y in (x[1] if isinstance(x[1], (set, frozenset)) else x[1:]):
+                    out += factors(y)
+                return out
+            return [x]
+        fs_ = factors(n)
+        return sorted(map(str, fs_)) == sorted(map(str, [("sym", "a"), ("sym", "b"), ("sym", "c")]))
     die_is = lambda v: util.is_call(v, suffix="::from") and util.is_call(v[2][0], "std::ops::RangeInclusive::<Idx>::new") and tuple(x[:2] for x in v[2][0][2]) == (("int", 0), ("int", 9))
     if data is not None and util.is_call(data, "std::iter::Iterator::collect"):
         # Uniform::from(0..=9).sample_iter(thread_rng()).take(size).collect(): one draw per element
